@@ -6,7 +6,7 @@
 fn c07_unspent_dump_matches_reference() {
     let suite = "c07_unspent_dump_matches_reference";
     let mut cases = 0;
-    for salt in 0..3u64 {
+    for salt in 0..(if thorough() { 16u64 } else { 3 }) {
         let mut rng = Rng::new(70 + salt);
         let mut chain = gen_history(&mut rng, 12);
         relink(&mut chain);
